@@ -699,7 +699,7 @@ func ruleAuthMetaKept(c *Ctx) {
 	}
 	metaT := p.Named("codec.Meta")
 	n := 0
-	for _, g := range WithClosures(fn) {
+	for _, g := range p.withHelpers(fn) {
 		for _, call := range callsIn(g) {
 			if _, ok := isCallTo(call, auth); !ok {
 				continue
@@ -739,12 +739,16 @@ func ruleAuthMetaKept(c *Ctx) {
 						for _, wf := range p.closuresHeld(cl.Common().Value, 0) {
 							_ = wf
 						}
-						v := cl.Common().Value
+						v := t.Resolve(fr, cl.Common().Value).V
 						if u, isU := v.(*ssa.UnOp); isU {
 							v = u.X
 						}
-						if fv, isFV := v.(*ssa.FreeVar); isFV {
-							if _, isSig := deref(fv.Type()).Underlying().(*types.Signature); isSig {
+						_, isFV := v.(*ssa.FreeVar)
+						if prm, isP := v.(*ssa.Parameter); isP && prm.Parent() != t.Root {
+							isFV = true // the request callback handed down to a named continuation (or the engine's probe of one)
+						}
+						if isFV {
+							if _, isSig := deref(v.Type()).Underlying().(*types.Signature); isSig {
 								// passing the merged meta on directly also keeps it
 								for _, a := range cl.Common().Args {
 									if dependsOn(a, func(x ssa.Value) bool { return x == ssa.Value(mPrm) }, map[ssa.Value]bool{}, 0) {
